@@ -18,6 +18,7 @@ Proof.
   intros Hv. unfold hrd_valid in Hv. split_all.
   unfold parse_hrd, ser_hrd, expected_hrd.
   pbind ltac:(apply parses_ue).
+  replace (31 <? cpb_cnt_minus1 h) with false by lia.
   pbind ltac:(apply parses_rd; lia).
   pbind ltac:(apply parses_rd; lia).
   pbind ltac:(apply (parses_rep_n raw (parse_cpb_entry BR) ser_cpb
@@ -137,11 +138,10 @@ Proof.
     apply parses_ret. }
   cbv beta.
   destruct (video_signal_type_present_flag x), (colour_description_present_flag x),
-    (timing_info_present_flag x), (bitstream_restriction_flag x); cbv beta iota zeta; cbn [andb];
-    apply parses_ret_eq; f_equal;
-    try (destruct (overscan_info_present_flag x); reflexivity);
-    try (destruct (chroma_loc_info_present_flag x); reflexivity);
-    try (destruct (nal_hrd_parameters_present_flag x), (vcl_hrd_parameters_present_flag x); reflexivity).
+    (timing_info_present_flag x), (bitstream_restriction_flag x),
+    (overscan_info_present_flag x), (chroma_loc_info_present_flag x),
+    (nal_hrd_parameters_present_flag x), (vcl_hrd_parameters_present_flag x);
+    apply parses_ret_eq; reflexivity.
 Qed.
 
 (* ------------------------------------------------------------------ the full AVC SPS lemma *)
